@@ -23,7 +23,10 @@ def render(spec, prologue="", epilogue="", union=None, actions=None, tags=None):
     if prologue:
         out.append("%{\n" + prologue + "\n%}\n")
     if union is not None:
-        out.append("%union {\n" + union + "\n}\n")
+        if spec.get("union_inline"):
+            out.append("%union {" + union + "}\n")      # the closing brace on the line of the last field (or of a // comment)
+        else:
+            out.append("%union {\n" + union + "\n}\n")
     tags = tags or {}
     if spec.get("token_groups"):
         # several tokens on one %token line (they share the line's tag); a number belongs to the token before it
@@ -401,7 +404,7 @@ def x_inputs(spec, rng, max_len=3, n_sent=10, cap=250):
         if s is None:
             continue
         # mutations may also insert 'y' / 'x': codes just above the largest token code
-        for cand in (s, _mutate(s, letters + (["y", "x"] if n < 23 else []), rng)):
+        for cand in (s, _mutate(s, letters + (["y", "x", "w"] if n < 22 else []), rng)):
             if cand not in seen:
                 seen.add(cand)
                 out.append(cand)
